@@ -1166,3 +1166,34 @@ mod tests {
         }
     }
 }
+
+/// Verification-only entry points (feature `trustfall_verif`): expose the candidate algebra
+/// of this module unchanged, for any element type.
+#[cfg(feature = "trustfall_verif")]
+impl<T: Debug + Clone + PartialEq + Eq + PartialOrd + NullableValue + Default> CandidateValue<T> {
+    pub fn verif_intersect(&mut self, other: CandidateValue<T>) {
+        self.intersect(other)
+    }
+    pub fn verif_normalize(&mut self) {
+        self.normalize()
+    }
+    pub fn verif_exclude_single_value(&mut self, value: &T) {
+        self.exclude_single_value(value)
+    }
+}
+
+#[cfg(feature = "trustfall_verif")]
+impl<T: Debug + Clone + PartialEq + Eq + PartialOrd + NullableValue> Range<T> {
+    pub fn verif_new(start: Bound<T>, end: Bound<T>, null_included: bool) -> Self {
+        Self::new(start, end, null_included)
+    }
+    pub fn verif_with_start(start: Bound<T>, null_included: bool) -> Self {
+        Self::with_start(start, null_included)
+    }
+    pub fn verif_with_end(end: Bound<T>, null_included: bool) -> Self {
+        Self::with_end(end, null_included)
+    }
+    pub fn verif_intersect(&mut self, other: Range<T>) {
+        self.intersect(other)
+    }
+}
